@@ -1137,7 +1137,9 @@ def _finalize_std(df, count_column, sum_column, sum2_column, **kwargs):
 
 
 def _cum_agg_aligned(part, cum_last, index, columns, func, initial):
+    # a group whose cells were all NA so far has no cumulative value yet
     align = cum_last.reindex(part.set_index(index).index, fill_value=initial)
+    align = align.fillna(initial)
     align.index = part.index
     return func(part[columns], align)
 
